@@ -35,6 +35,9 @@ func (p propT) inLanguage() bool {
 		if t.IR != nil && ((t.IR.XMin == 2 && !t.IR.Min) || (t.IR.XMax == 2 && !t.IR.Max)) {
 			return false
 		}
+		if t.IR != nil && t.IR.Bad != 0 && (t.IR.Min || t.IR.Max) {
+			return false // bounds outside the format's range, or minimum above maximum: a semantic error
+		}
 	case "key":
 		if p.Optional && t.Ent == "primaryT" && p.Shape.Kind != "map" {
 			return false
